@@ -206,7 +206,7 @@ class Check:
                 pass
             m = SAN_PAT.search(errtxt)
             if m:
-                kind = re.sub(r"( on (unknown )?address| at pc| in thread).*$", "", m.group(1))   # keys must not depend on addresses
+                kind = re.sub(r"( on (unknown )?address| at pc| in thread| \(pid=\d+\)).*$", "", m.group(1))   # keys must not depend on addresses
                 kind = re.sub(r"0x[0-9a-f]+", "", kind)
                 kind = re.sub(r"[^A-Za-z0-9_:+-]+", "-", kind)[:80]
                 frames = re.findall(r"#\d+ 0x[0-9a-f]+ in ([^\s(]+)", errtxt)
